@@ -156,8 +156,9 @@ PROPS = {
         "harness": [
             e2e("precompile,mixed", 160, 5000, configs="w2,w3,seq,fallback", schedules=3, label="precompiles"),
             {"sub": "facade-conf", "quick": {"cases": 60}, "thorough": {"cases": 3000}, "timeout": 3000},
+            {"sub": "adapter-conf", "quick": {}, "thorough": {}, "timeout": 600},
         ],
-        "rule": "precompile family: eight custom precompiles registered through DynParallelPrecompile (read-your-writes storage update, balance bookkeeping via balance / set_balance, a writer that ignores the refusal in a static context, a halting one that writes first, a beneficiary-balance reader, a writer, a state-dependent fatal one, a balance probe of a still-cold account followed by the BALANCE opcode on the same account) called directly, nested from contracts, through STATICCALL, inside a reverting frame, mixed with transfers to the accounts they touch, a mid-block invalid transaction (sequential suffix replay) — parallel (free and controller schedules), sequential and fallback_sequential() entry; oracle = in-order stock revm with the same adapters installed (outcomes, gas, bundle, per-commit state); facade-conf: every precompile invocation logs (static?, facade calls, kind of each result); all logged invocations are replayed through Facade.runOps: the result kinds must equal the model's (static refusal at the first mutation, the same halt for every later call); " + E2E_RULE,
+        "rule": "precompile family: eight custom precompiles registered through DynParallelPrecompile (read-your-writes storage update, balance bookkeeping via balance / set_balance, a writer that ignores the refusal in a static context, a halting one that writes first, a beneficiary-balance reader, a writer, a state-dependent fatal one, a balance probe of a still-cold account followed by the BALANCE opcode on the same account) called directly, nested from contracts, through STATICCALL, inside a reverting frame, mixed with transfers to the accounts they touch, a mid-block invalid transaction (sequential suffix replay) — parallel (free and controller schedules), sequential and fallback_sequential() entry; oracle = in-order stock revm with the same adapters installed (outcomes, gas, bundle, per-commit state); adapter-conf: an error-replacer precompile (answers a facade error with an own fatal error / own halt / propagates it / ignores it) is called through CALL and STATICCALL, on the parallel and the sequential path; what the call ends as (ok / halt / fatal) must be what Facade.adapter says — the expected verdict comes from the Lean model because the in-order oracle installs the same adapter; facade-conf: every precompile invocation logs (static?, facade calls, kind of each result); all logged invocations are replayed through Facade.runOps: the result kinds must equal the model's (static refusal at the first mutation, the same halt for every later call); " + E2E_RULE,
         "trusted_base": E2E_TRUST,
         "modelled": ["ParallelPrecompileState::{balance, sload, set_balance, sstore, ensure_healthy, ensure_mutable, record_fault, take_fault} and the fault enforcement of DynParallelPrecompile::to_alloy (src/precompile.rs) as Model/Facade.lean", "the journal is a pair of maps plus the set of loaded accounts; warm/cold metadata, gas and EvmInternals are not modelled"],
         "assumptions": ["facade accesses are ordinary journal accesses (load_account / sload / sstore of EvmInternals), so conflict detection, frame reverts and the absence of residue are those of C01/C02; exercised by the e2e family incl. the cold-account balance probe", "the test precompiles use the facade only (the type system forbids anything else: fields are private)"],
